@@ -4,6 +4,7 @@ import (
 	"github.com/go-kid/ioc/component_definition"
 	"github.com/go-kid/ioc/container"
 	"github.com/go-kid/ioc/syslog"
+	"github.com/go-kid/ioc/util/sort2"
 	"github.com/go-kid/ioc/util/sync2"
 )
 
@@ -29,6 +30,11 @@ func (r *defaultDefinitionRegistry) GetMetas(opts ...container.Option) []*compon
 			metas = append(metas, m)
 		}
 		return true
+	})
+	// the map iterates in random order: enumerate in name order, so that candidate order - and with it the order in which
+	// the members of a dependency cycle are entered - is the same on every run
+	sort2.Slice(metas, func(i, j *component_definition.Meta) bool {
+		return i.Name() < j.Name()
 	})
 	return metas
 }
